@@ -694,14 +694,14 @@ def install(interp):
             if isinstance(a, Sym):
                 return interp.bool_value(a)
             if contains_sym(a):
-                return b_any(interp, list(a) if not isinstance(a, (SymSeq,)) else a)
+                return b_any(interp, (a.ravel().tolist() if isinstance(a, np.ndarray) else list(a)) if not isinstance(a, (SymSeq,)) else a)
             return np.any(a, *rest, **kw)
 
         def np_all(interp, a, *rest, **kw):
             if isinstance(a, Sym):
                 return interp.bool_value(a)
             if contains_sym(a):
-                return b_all(interp, list(a) if not isinstance(a, (SymSeq,)) else a)
+                return b_all(interp, (a.ravel().tolist() if isinstance(a, np.ndarray) else list(a)) if not isinstance(a, (SymSeq,)) else a)
             return np.all(a, *rest, **kw)
         r(np.any, np_any)
         r(np.all, np_all)
